@@ -252,22 +252,80 @@ Definition build_modelled (r : request) : bool :=
      | _ => true
      end.
 
-(* ---------- correspondence ---------- *)
-Record case := { y_req : request; y_host : ustr; y_port : N;
-                 y_ip6 : tbl; y_nfkc : tbl;
-                 (* observed *)
-                 y_built : option bytes;                  (* Requester.build(): None = it raised *)
-                 y_parsed : option (ustr * ustr * ustr * list (ustr * ustr) * bytes);   (* method path query headers body *)
-                 y_path_info : ustr; y_query_string : ustr; y_content_length : option ustr;
-                 y_qsl : list (ustr * ustr);              (* urllib parse_qsl(QUERY_STRING) *)
-                 y_form_qsl : list (ustr * ustr) }.       (* urllib parse_qsl(body) for form requests *)
+(* ---------- the Requester as a stateful object ----------
+   Requester keeps its attributes between builds; rebuild(args) = reinit(args); build().
+   reinit replaces method / path / qargs / headers only when given, and ALWAYS replaces
+   body / data / fargs (b'' / None when not given).  build() itself writes back: .path (the
+   split-off, *unquoted* path), .qargs (merged with a query given in the path) and
+   .headers (content-type for data / fargs stays for later requests). *)
+Record rstate := { s_method : ustr; s_path : ustr; s_qargs : list (ustr * ustr);
+                   s_headers : list (ustr * ustr); s_body : bytes;
+                   s_data : option bytes;                       (* json.dumps(data) encoded, external *)
+                   s_fargs : option (list (ustr * ustr)) }.
 
-Definition check_case (c : case) : bool :=
-  let o := mk_oracle (y_ip6 c) (y_nfkc c) in
+Record rargs := { a_method : option ustr; a_path : option ustr;
+                  a_qargs : option (list (ustr * ustr)); a_headers : option (list (ustr * ustr));
+                  a_body : option bytes; a_data : option bytes;
+                  a_fargs : option (list (ustr * ustr)) }.
+
+Definition reinit (st : rstate) (a : rargs) : rstate :=
+  {| s_method := match a_method a with Some m => m | None => s_method st end;
+     s_path := match a_path a with Some p => p | None => s_path st end;
+     s_qargs := match a_qargs a with Some q => q | None => s_qargs st end;
+     s_headers := match a_headers a with Some h => h | None => s_headers st end;
+     s_body := match a_body a with Some b => b | None => [] end;
+     s_data := a_data a;
+     s_fargs := a_fargs a |}.
+
+(* the request the next build() sends: data takes precedence over fargs over body *)
+Definition request_of (st : rstate) : request :=
+  {| q_method := s_method st; q_path := s_path st; q_qargs := s_qargs st; q_headers := s_headers st;
+     q_body := match s_data st, s_fargs st with
+               | Some e, _ => Json e
+               | None, Some f => Form f
+               | None, None => Raw (s_body st)
+               end |}.
+
+(* build(): the bytes and the attributes it leaves behind (within [build_modelled]) *)
+Definition build_step (host : ustr) (port : N) (st : rstate) : bytes * rstate :=
+  let r := request_of st in
+  (build host port r,
+   {| s_method := s_method st; s_path := s_path st; s_qargs := s_qargs st;
+      s_headers := final_headers r; s_body := s_body st; s_data := s_data st; s_fargs := s_fargs st |}).
+
+(* a history: the first build, then rebuild(args) for each args.  Result: for every build the
+   request it was asked to send (state after reinit) and the bytes *)
+Fixpoint history (host : ustr) (port : N) (st : rstate) (ops : list rargs) : list (request * bytes) :=
+  let '(w, st') := build_step host port st in
+  (request_of st, w) ::
+  match ops with
+  | [] => []
+  | a :: ops' => history host port (reinit st' a) ops'
+  end.
+
+Definition state_of (r : request) : rstate :=
+  {| s_method := q_method r; s_path := q_path r; s_qargs := q_qargs r; s_headers := q_headers r;
+     s_body := match q_body r with Raw b => b | _ => [] end;
+     s_data := match q_body r with Json e => Some e | _ => None end;
+     s_fargs := match q_body r with Form f => Some f | _ => None end |}.
+
+(* ---------- correspondence ---------- *)
+Record stepobs := { y_built : option bytes;                  (* Requester.build()/rebuild(): None = it raised *)
+                    y_parsed : option (ustr * ustr * ustr * list (ustr * ustr) * bytes);   (* method path query headers body *)
+                    y_path_info : ustr; y_query_string : ustr; y_content_length : option ustr;
+                    y_qsl : list (ustr * ustr);              (* urllib parse_qsl(QUERY_STRING) *)
+                    y_form_qsl : list (ustr * ustr) }.       (* urllib parse_qsl(body) for form requests *)
+
+Record case := { y_req : request; y_ops : list rargs; y_host : ustr; y_port : N;
+                 y_ip6 : tbl; y_nfkc : tbl;
+                 y_steps : list stepobs }.                   (* one per build, in order *)
+
+Definition check_step (o : url_oracle) (rw : request * bytes) (c : stepobs) : bool :=
+  let '(req, mwire) := rw in
   match y_built c with
-  | None => negb (wf_request (y_req c))      (* build may raise only outside the domain *)
+  | None => negb (wf_request req)      (* build may raise only outside the domain *)
   | Some wire =>
-    (if build_modelled (y_req c) then bytes_eqb (build (y_host c) (y_port c) (y_req c)) wire else true) &&
+    (if build_modelled req then bytes_eqb mwire wire else true) &&
     match parse_request o wire, y_parsed c with
     | Ok p, Some (m, pa, q, hs, body) =>
       ustr_eqb (p_method p) m && ustr_eqb (p_path p) pa && ustr_eqb (p_query p) q
@@ -276,18 +334,39 @@ Definition check_case (c : case) : bool :=
       && ustr_eqb (e_query_string (build_environ p)) (y_query_string c)
       && option_eqb ustr_eqb (e_content_length (build_environ p)) (y_content_length c)
       && pairs_eqb (parse_qsl (p_query p)) (y_qsl c)
-      && pairs_eqb (match q_body (y_req c) with Form _ => parse_qsl (p_body p) | _ => [] end) (y_form_qsl c)
+      && pairs_eqb (match q_body req with Form _ => (if ustr_eqb (q_method req) (str "GET") then [] else parse_qsl (p_body p)) | _ => [] end) (y_form_qsl c)
     | Exc _, None => true
     | _, _ => false
     end
   end.
 
+(* histories are compared as long as every request so far is inside the modelled domain of
+   build (afterwards the stored attributes are not modelled); the first build always is *)
+Fixpoint check_steps (o : url_oracle) (h : list (request * bytes)) (obs : list stepobs) : bool :=
+  match h, obs with
+  | rw :: h', c :: obs' =>
+    check_step o rw c &&
+    (if build_modelled (fst rw) && match y_built c with Some _ => true | None => false end
+     then check_steps o h' obs' else true)
+  | [], [] => true
+  | _, _ => false
+  end.
+
+Definition check_case (c : case) : bool :=
+  let o := mk_oracle (y_ip6 c) (y_nfkc c) in
+  let h := history (y_host c) (y_port c) (state_of (y_req c)) (y_ops c) in
+  Nat.eqb (List.length h) (List.length (y_steps c)) && check_steps o h (y_steps c).
+
 Definition case_branches (c : case) : list nat :=
   let r := y_req c in
+  let o := mk_oracle (y_ip6 c) (y_nfkc c) in
+  let h := history (y_host c) (y_port c) (state_of r) (y_ops c) in
   (match q_body r with Raw [] => 0%nat | Raw _ => 1%nat | Json _ => 2%nat | Form _ => 3%nat end) ::
   (if ustr_eqb (q_method r) (str "GET") then 4%nat else 5%nat) ::
   (if is_nil (q_qargs r) then 6%nat else 7%nat) ::
   (if has_header (q_headers r) "content-length" then [8%nat] else []) ++
-  (if wf_request r then [9%nat] else [10%nat]) ++
-  (if roundtrip (mk_oracle (y_ip6 c) (y_nfkc c)) (y_host c) (y_port c) r then [11%nat] else [12%nat]).
-Definition n_branches : nat := 13.
+  (if forallb (fun rw => wf_request (fst rw)) h then [9%nat] else [10%nat]) ++
+  (if forallb (fun rw => roundtrip o (y_host c) (y_port c) (fst rw)) h then [11%nat] else [12%nat]) ++
+  (match y_ops c with [] => [13%nat] | [_] => [14%nat] | _ => [15%nat] end) ++
+  (if existsb (fun a => match a_path a with None => true | Some _ => false end) (y_ops c) then [16%nat] else []).
+Definition n_branches : nat := 17.
